@@ -75,7 +75,8 @@ def make_content(rng, nhdr, nf, wrap, vers):
                 continue
             row.append(rng.choice([('1.5', 1.5), ('-2.25', -2.25), ('1e3', 1000.0), ('0', 0.0) if c['null'] != 0.0 else ('7', 7.0),
                                    ('-999.25', None) if c['null'] == -999.25 else ('-999.25', -999.25), ('NaNx', None),
-                                   ('12:30', None), ('--', None), ('0.001', 0.001), ('123456.789', 123456.789)]))
+                                   ('12:30', None), ('--', None), ('YES', None), ('NO', None), ('yes', None), ('No', None), ('N/A', None), ('*****', None),
+                                   ('1.5.2', None), ('0x10', None), ('TRUE', None), ('E5', None), ('+', None), ('0.001', 0.001), ('123456.789', 123456.789)]))
         frames.append(row)
     c['frames'] = frames
     return c
